@@ -269,6 +269,106 @@ def run(facts, res):
                                   "aborts the calling thread instead of returning an error" % (mp, c.name, callee_name(x)), m.loc(t.line))
     res.floor("R4", "explicit panic sites on the read path", n4, 1)
     _run_termination(facts, res)
+    _winnerless(facts, res)
+
+
+def _winnerless(facts, res):
+    """R4c: a revision tree without a winner is a reachable state (every revision unreachable from a root: the crate builds such
+    trees itself when a saved stage is replayed after time travel, and its own operations *report* the state as an error).  So
+    (1) an unwrap / expect applied directly to RevisionTree::get_winner() needs a dominating `has a winner` fact on the same tree
+    (an `if let Some(..) = get_winner()`, a non-empty leaf set), in the function or at every caller of a private function;
+    (2) the Result of a function that reports the winner-less state as Err is never unwrapped (contradiction rule: one site handles
+    the state, the other aborts on it)."""
+    from ..common import assigns_of_return
+    from ..cfg import cfg_of
+    res.rule("R4", "the winner-less tree state is handled, not unwrapped: no unwrap of get_winner() without a has-winner fact, no unwrap of a Result that reports the state")
+    cg = cg_of(facts)
+    GW = "revisiontree::RevisionTree::get_winner"
+
+    def scope(b):
+        return b.in_repo() and "::tests::" not in b.path
+
+    def strip(t):
+        n = 0
+        while n < 40 and t[0] in ("var", "ref", "deref", "cast"):
+            n += 1
+            t = t[3] if t[0] == "var" else t[1]
+        return t
+
+    def has_winner(l):
+        if l.kind == "variant" and l.variants == {"Some"} and any(x[0] == "call" and x[1] == GW for x in walk(l.term)):
+            return True
+        if l.kind == "call" and callee_name(l.term) in ("is_some", "is_none") and l.truth == (callee_name(l.term) == "is_some") and \
+                any(x[0] == "call" and x[1] == GW for x in walk(l.term)):
+            return True
+        if not any(x[0] == "call" and callee_name(x) == "get_leafs" for x in walk(l.term)):
+            return False
+        if l.kind == "call" and callee_name(l.term) == "contains" and l.truth is True:
+            return True
+        if l.kind == "call" and callee_name(l.term) == "is_empty" and l.truth is False:
+            return True
+        if l.kind == "cmp" and l.truth is not None and l.term[3][0] == "const":
+            op, k, t_ = l.term[1], l.term[3][2], l.truth
+            # len > k (k >= 0), len >= k (k >= 1), !(len <= k), !(len < k) (k >= 1)
+            return (op == "Gt" and t_ and k >= 0) or (op == "Ge" and t_ and k >= 1) or (op == "Le" and not t_ and k >= 0) or \
+                (op == "Lt" and not t_ and k >= 1) or (op == "Ne" and t_ and k == 0) or (op == "Eq" and not t_ and k == 0)
+        return False
+
+    def no_winner(l):
+        if l.kind == "variant" and l.variants == {"None"} and strip(l.term)[0] == "call" and strip(l.term)[1] == GW:
+            return True
+        return l.kind == "call" and callee_name(l.term) in ("is_some", "is_none") and l.truth == (callee_name(l.term) == "is_none") and \
+            l.term[2] and strip(l.term[2][0])[0] == "call" and strip(l.term[2][0])[1] == GW
+    # functions that report the winner-less state
+    reporters = set()
+    for b in facts.bodies:
+        if not scope(b) or b.kind == "closure" or not b.local_ty(0).startswith("std::result::Result<"):
+            continue
+        for ob, st in assigns_of_return(b, "Err"):
+            if any(no_winner(l) for l in lits_of(b, ob, facts)):
+                reporters.add(b.path)
+        du = du_of(b)
+        for bi, t in b.calls():
+            # `get_winner().ok_or_else(..)?`
+            if t.callee is not None and t.callee.name in ("ok_or_else", "ok_or") and t.args:
+                a0 = strip(du.operand_term(t.args[0], 10))
+                if a0[0] == "call" and a0[1] == GW:
+                    reporters.add(b.path)
+    res.instance("R4", "functions that report a winner-less tree as an error: %s" % sorted(r.rsplit("::", 1)[-1] for r in reporters), None)
+    res.floor("R4", "functions reporting the winner-less state", len(reporters), 2)
+    n = 0
+    for b in facts.bodies:
+        if not scope(b):
+            continue
+        du = du_of(b)
+        for bi, t in b.calls():
+            if t.callee is None or t.callee.name not in ("unwrap", "expect", "unwrap_unchecked") or not t.args:
+                continue
+            a0 = strip(du.operand_term(t.args[0], 12))
+            if a0[0] != "call":
+                continue
+            direct = a0[1] == GW
+            indirect = a0[1] in reporters
+            if not (direct or indirect):
+                continue
+            n += 1
+            guarded = any(has_winner(l) for l in lits_of(b, bi, facts))
+            where = "here"
+            if not guarded and direct:
+                # a private function may rely on its callers (`if let Some(w) = rt.get_winner() { self.helper(&rt) }`)
+                root = facts.body(b.parent) if b.kind == "closure" and b.parent else b
+                callers = [s_ for s_ in cg.callers_of(root.path) if s_.body.path != root.path]
+                if root is not None and not root.public and callers and all(any(has_winner(l) for l in lits_of(s_.body, s_.block, facts)) for s_ in callers):
+                    guarded, where = True, "at every caller"
+            res.instance("R4", "%s: %s() on %s at line %s; a winner is known to exist (%s): %s" % (
+                b.path, t.callee.name, "get_winner()" if direct else a0[1].rsplit("::", 1)[-1] + "(..), which reports a winner-less tree as Err", t.line, where, guarded), b.loc(t.line))
+            if not guarded:
+                what = "get_winner" if direct else a0[1].rsplit("::", 1)[-1]
+                res.violation("R4", "%s|unwrap-on-winnerless-tree:%s" % ((facts.body(b.parent).path if b.kind == "closure" and b.parent and facts.body(b.parent) else b.path), what),
+                              "%s calls %s() on %s without knowing that the tree has a winner: a tree whose revisions are all unreachable from a root (e.g. a saved "
+                              "stage replayed after reload_until to a state where the object did not exist yet) has none, the crate's other operations report "
+                              "that state as an error, this one aborts the calling thread" % (b.path, t.callee.name, "get_winner()" if direct else what + "(..)"), b.loc(t.line))
+    res.floor("R4", "unwraps of get_winner() / of winner-reporting results", n, 1)
 
 
 def _run_termination(facts, res):
